@@ -53,6 +53,8 @@ TF(b, f)    == [t |-> "tryfin", b |-> b, f |-> f]       \* try: b  finally: f
 TE(b, e, h) == [t |-> "tryexc", b |-> b, e |-> e, h |-> h]  \* try: b  except e: h
 Loop(n, b)  == [t |-> "loop", n |-> n, b |-> b]         \* for _ in range(n): b
 YF(g)       == [t |-> "yf", g |-> g]                    \* x = yield from Subs[g]
+Rr          == [t |-> "reraise"]                        \* bare `raise` (re-raise the exception being handled)
+LH          == [t |-> "loghexc"]                        \* L.append(code of type(sys.exc_info()[1])): the exception being handled
 Re(k)       == [t |-> "reenter", k |-> k]               \* resume self while running: ValueError -> L.append(k)
 
 (* sub-generators used by `yield from`; kind "c": compiled in the module under *)
@@ -110,9 +112,11 @@ Bodies == <<
   (* 25 *) G("yf_fin_raises", Sq(<<TE(YF(10), "KeyError", Sq(<<Lg(150), Y(5)>>)), Y(3)>>)),
   (* 26 *) G("yf_drop_c",  Sq(<<TF(TE(YF(11), "RuntimeError", Sq(<<Lg(190), Y(6)>>)), Lg(191)), Y(7)>>)),
   (* 27 *) G("yf_drop_p",  Sq(<<TF(TE(YF(12), "RuntimeError", Sq(<<Lg(190), Y(6)>>)), Lg(191)), Y(7)>>)),
-  (* 28 *) C("co_plain", "c", Sq(<<R(1), LX, R(2), RetX>>)),
-  (* 29 *) C("co_tryfin", "p", Sq(<<TF(Sq(<<Y(1), TE(Y(2), "ValueError", Sq(<<Lg(160), Y(5)>>))>>), Lg(161)), Ret(9)>>)),
-  (* 30 *) C("co_ignore_ge", "c", Sq(<<TE(Sq(<<Y(1), Y(2)>>), "GeneratorExit", Sq(<<Lg(170), Y(8)>>)), Re(171), Rz("StopIteration")>>))
+  (* 28 *) G("reraise",    Sq(<<TE(Sq(<<Y(1), Y(2)>>), "ValueError",
+                                    Sq(<<Lg(200), Y(5), LH, TE(Y(6), "KeyError", Sq(<<LH, Y(7), LH>>)), LH, Rr>>)), LH, Y(3)>>)),
+  (* 29 *) C("co_plain", "c", Sq(<<R(1), LX, R(2), RetX>>)),
+  (* 30 *) C("co_tryfin", "p", Sq(<<TF(Sq(<<Y(1), TE(Y(2), "ValueError", Sq(<<Lg(160), Y(5)>>))>>), Lg(161)), Ret(9)>>)),
+  (* 31 *) C("co_ignore_ge", "c", Sq(<<TE(Sq(<<Y(1), Y(2)>>), "GeneratorExit", Sq(<<Lg(170), Y(8)>>)), Re(171), Rz("StopIteration")>>))
 >>
 
 ---------------------------------------------------------------------------
@@ -139,6 +143,8 @@ Matches(e, cls) == \/ cls = e
                    \/ cls = "BaseException"
                    \/ cls = "Exception" /\ e # "GeneratorExit"
 Pep479(e) == IF e = "StopIteration" THEN "RuntimeError" ELSE e
+ECodes == [None |-> 0, ValueError |-> 901, KeyError |-> 902, GeneratorExit |-> 903, RuntimeError |-> 904, StopIteration |-> 905]
+ECode(e) == IF e = "" THEN ECodes.None ELSE IF e \in DOMAIN ECodes THEN ECodes[e] ELSE 909
 
 ---------------------------------------------------------------------------
 (* a suspended frame at depth d takes the next client operation *)
@@ -206,14 +212,20 @@ Exec(s, st, d) ==
                          IN IF r.sig.t = "norm" THEN Res([r.st EXCEPT !.x = r.st.sent], Norm) ELSE r
     [] s.t = "log"    -> Res([st EXCEPT !.log = Append(@, s.k)], Norm)
     [] s.t = "logx"   -> Res([st EXCEPT !.log = Append(@, st.x)], Norm)
+    [] s.t = "loghexc" -> Res([st EXCEPT !.log = Append(@, ECode(st.hexc))], Norm)
     [] s.t = "reenter" -> Res([st EXCEPT !.log = Append(@, s.k)], Norm)
     [] s.t = "ret"    -> Res(st, Return(s.v))
     [] s.t = "retx"   -> Res(st, Return(st.x))
     [] s.t = "raise"  -> Res(st, Raise(s.e))
+    [] s.t = "reraise" -> Res(st, Raise(IF st.hexc = "" THEN "RuntimeError" ELSE st.hexc))
     [] s.t = "seq"    -> ExecSeq(s.ss, st, d)
     [] s.t = "loop"   -> ExecLoop(s.n, s.b, st, d)
     [] s.t = "tryexc" -> LET r == Exec(s.b, st, d)
-                         IN IF r.sig.t = "raise" /\ Matches(r.sig.e, s.e) THEN Exec(s.h, r.st, d) ELSE r
+                         IN IF r.sig.t = "raise" /\ Matches(r.sig.e, s.e)
+                            THEN \* the handler runs with r.sig.e as the exception being handled (it survives yields)
+                                 LET hr == Exec(s.h, [r.st EXCEPT !.hexc = r.sig.e], d)
+                                 IN Res([hr.st EXCEPT !.hexc = st.hexc], hr.sig)
+                            ELSE r
     [] s.t = "tryfin" -> LET r == Exec(s.b, [st EXCEPT !.tries = @ + 1], d)
                          IN IF r.sig.t \in {"susp", "drop"} THEN r
                             ELSE LET f == Exec(s.f, [r.st EXCEPT !.fins = @ + 1], d)
@@ -260,7 +272,7 @@ Start(b, st) ==      \* the not-started object
 Run(bi, ops) ==
   Start(Bodies[bi].b,
         [ops |-> ops, obs |-> <<>>, log |-> <<>>, x |-> NONE, sent |-> NONE, cur |-> NoOp,
-         closing |-> {}, fin |-> -1, tries |-> 0, fins |-> 0, dropped |-> FALSE, unsup |-> FALSE,
+         closing |-> {}, fin |-> -1, hexc |-> "", tries |-> 0, fins |-> 0, dropped |-> FALSE, unsup |-> FALSE,
          status |-> "created", logfin |-> -1, cret |-> FALSE, coro |-> Bodies[bi].kind = "coro"])
 
 Eval(bi, h) ==
@@ -332,5 +344,5 @@ Publish == Dump => PrintT("@@" \o ToJson([b |-> body, h |-> hist,
                                            l |-> exp.log, d |-> exp.dlog, s |-> exp.status, ds |-> exp.dstatus,
                                            cr |-> exp.cret, dcr |-> exp.dcret]))
 
-ASSUME PrintT("@@" \o ToJson([templates |-> Bodies, subs |-> Subs, subbodies |-> SubBodies, ops |-> OpSeq]))
+ASSUME PrintT("@@" \o ToJson([templates |-> Bodies, subs |-> Subs, subbodies |-> SubBodies, ops |-> OpSeq, ecodes |-> ECodes]))
 =============================================================================
